@@ -16,12 +16,18 @@ res = {"property": pid, "variant": var}
 try:
     txt = open(f"{seed}/demo_cargo.txt").read()
     m = re.search(r"\[\[test\]\]\s*\nname\s*=\s*\"([^\"]+)\"(?:\s*\npath\s*=\s*\"[^\"]+\")?\s*\nrequired-features\s*=\s*\[([^\]]*)\]", txt)
-    name = m.group(1)
-    feats = ",".join(f.strip().strip('"') for f in m.group(2).split(",") if f.strip())
-    shutil.copy(f"{seed}/demo.rs", f"{wt}/tests/{name}.rs")
-    with open(f"{wt}/Cargo.toml", "a") as f:
-        f.write(f'\n[[test]]\nname = "{name}"\nrequired-features = [{m.group(2)}]\n')
-    cmd = f"cargo test --offline -j 8 --features {feats} --test {name}"
+    if m:
+        name = m.group(1)
+        feats = ",".join(f.strip().strip('"') for f in m.group(2).split(",") if f.strip())
+        shutil.copy(f"{seed}/demo.rs", f"{wt}/tests/{name}.rs")
+        with open(f"{wt}/Cargo.toml", "a") as f:
+            f.write(f'\n[[test]]\nname = "{name}"\nrequired-features = [{m.group(2)}]\n')
+        cmd = f"cargo test --offline -j 8 --features {feats} --test {name}"
+    else:
+        # auto-discovered test on default features
+        name = f"seeded_{pid.lower()}_{var.lower()}"
+        shutil.copy(f"{seed}/demo.rs", f"{wt}/tests/{name}.rs")
+        cmd = f"cargo test --offline -j 8 --test {name}"
     res["demo_cmd"] = cmd
     rc0, out0 = sh(cmd, wt)
     res["demo_without_patch_rc"] = rc0
